@@ -24,6 +24,15 @@ const EXTRA: &[(&str, &str)] = &[
     ("luau", "local x: number = 1\ntype T = { a: number }\nlocal s = `a{x}b`\nx += 1\nlocal y = if x then 1 else 2\nfor i = 1, 2 do continue end\n"),
     ("lua52", "goto done\n::done::\nlocal x = 7 // 2\nlocal y = x & 3 | 4 ~ 5 << 1 >> 2\n"),
     ("lua54", "local x <const> = 1\nlocal y <close> = nil\n"),
+    // filter comments whose invalid_lint_filter diagnostics are located inside comments: block / line comments, LF / CRLF,
+    // characters of every UTF-8 length around the offending part
+    ("filter-block-crlf-unicode", "--[[ é\r\n selene: allow(nope_lint) é\r\né ]]\r\nlocal x = 1\r\nprint(x)\r\n"),
+    ("filter-block-crlf-unicode-2", "local a = 1\r\n--[[ 😀 ü\r\n\r\n selene: deny(nope) — ☃\r\n selene: allow(also_nope)é\r\n]]\r\nprint(a)\r\n"),
+    ("filter-block-lf-unicode", "--[[ é\n selene: allow(nope_lint) é\né ]]\nlocal x = 1\nprint(x)\n"),
+    ("filter-block-level", "--[==[ é\r\n selene: allow(nope_lint)\r\n ]==]\r\nlocal x = 1\r\nprint(x)\r\n"),
+    ("filter-line-unicode", "-- selene: allow(nöpe) é\nlocal x = 1 -- selene: allow(nope2) 😀\nprint(x)\n"),
+    ("filter-global-late-unicode", "local é = 1\r\n--# selene: allow(unused_variable) é\r\nprint(1)\r\n"),
+    ("filter-conflict-unicode", "-- é selene: allow(unused_variable)\r\n-- selene: deny(unused_variable) é\r\nlocal z = 'é'\r\n"),
 ];
 
 fn check_diags(src: &str, diags: &[selene_lib::CheckerDiagnostic]) -> Vec<String> {
